@@ -1,6 +1,5 @@
 """C11 - Three-phase power flow is consistent with the symmetric power flow (DESIGN.md sec. 2, C11)."""
 import cmath
-import copy
 import math
 
 from hypothesis import strategies as st
@@ -18,7 +17,11 @@ RULE = ("Hypothesis draws a network recipe of the '3ph' family (1-3 voltage leve
         "si0_hv_partial and vector group YNyn (shift 0/180) or Dyn/Yzn (shift +-30/150), taps, parallel, symmetric "
         "load/sgen/storage (load/sgen wye or delta), asymmetric_load/asymmetric_sgen wye or delta, scaling incl. 0, "
         "out-of-service parts, fused buses, open switches, second ext_grid, custom bus index) and runs runpp_3ph "
-        "(trafo_model 't'). Half of the recipes are made balanced (all asymmetric elements get equal phases). "
+        "(trafo_model 't', calculate_voltage_angles on/off, numba on/off). A third of the recipes is made balanced (all "
+        "asymmetric elements get equal phases; recipes without asymmetric elements are balanced anyway). Shapes of the "
+        "classified defects (demand at the ext_grid node, storage, ext_grid zero-sequence data != negative-sequence data, "
+        "two ext_grids on one node, line at an out-of-service bus, nothing but slack buses energized) are removed by "
+        "construction in most cases, a minority still hits each of them. "
         "Oracle B (every converged case): per element p_a+p_b+p_c = input total*scaling (res_load/sgen/storage_3ph "
         "carry the total); per electrical node and phase: sum of element phase powers (wye: reported phase value, "
         "symmetric element: total/3, delta: phase-earth power from the documented line-line conversion with the "
@@ -27,16 +30,27 @@ RULE = ("Hypothesis draws a network recipe of the '3ph' family (1-3 voltage leve
         "Oracle A (balanced recipes, runpp with the same options on the same net): vm_a=vm_b=vm_c=vm_pu, "
         "va_{a,b,c}=va+{0,-120,+120}, line/trafo/ext_grid phase powers = 1/3 of the symmetric results, phase currents "
         "and loading = symmetric values, unbalance_percent ~ 0. "
+        "Oracle C (every converged case, independent reference pbt/refmodel.py + documented sequence models): the sequence "
+        "currents derived from the reported phase powers/voltages of every line (0/1/2: pi sections from r0,x0,c0 resp. r,x,c,g) "
+        "and every transformer (1/2: T-model with taps, shift reversed in the negative sequence) equal the model currents at "
+        "the reported voltages. "
         "Non-trivial = runpp_3ph converged, some energized node carries a bus element and (balanced: runpp converged "
         "too and a branch carries power; unbalanced: >= 1 in-service asymmetric element with unequal phases at an "
         "energized bus); distinct by case hash.")
 ASSUMPTIONS = ["runpp_3ph stops its outer loop at a fixed 3e-8 p.u. positive-sequence power mismatch: power tolerance "
-               "2e-6 MVA * max(1, sn_mva) + 1e-6 relative (node scale), vm 2e-6 p.u., va 2e-4 degree, currents 1e-5 relative + 1e-7 kA",
+               "2e-6 MVA * max(1, sn_mva) + 1e-6 relative (node scale) for balanced and 10x that for unbalanced recipes, vm 2e-6 p.u., "
+               "va 2e-4 degree, currents 1e-5 relative + 1e-7 kA",
+               "recipes in which an energized bus has no zero-sequence path to earth (e.g. a bus fed only through the HV side of a "
+               "Dyn/Yzn transformer) are outside the domain ('modelled with earth return') and skipped",
                "documented limits respected: no gen, no trafo3w, no impedance/ward/shunt/motor/xward, no ZIP loads, no impedance "
                "switches, trafo_model 't', vector groups YNyn/Dyn/Yzn only",
                "delta elements: the reported phase values are line-line powers (doc asymmetric_load.rst); their phase-earth "
                "share is computed from the reported voltages with the documented conversion",
-               "non-convergence (LoadflowNotConverged) and documented rejections are legal and counted as skipped"]
+               "non-convergence (LoadflowNotConverged) and documented rejections are legal and counted as skipped",
+               "a failure of oracle A is attributed to a root cause only if oracle B proved that cause on the same case (mismatch "
+               "equals the storage power / the slack-node demand / (n-1)/n of the ext_grid sum / one common zero-sequence current)",
+               "the zero-sequence transformer model (vector-group dependent) is not re-derived: oracle C checks transformers in the "
+               "positive and negative sequence only"]
 
 LEVEL_SETS = [[20.0, 0.4], [10.0, 0.4], [0.4], [110.0, 20.0], [20.0, 0.4], [20.0], [110.0, 10.0], [110.0, 20.0, 0.4], [10.0],
               [10.0, 0.4], [110.0, 20.0, 0.4]]
@@ -53,6 +67,7 @@ PROFILES = {"quick": netgen.profile(nb_level=(1, 4), nb_max=9, **_BASE),
 
 PHASES = ("a", "b", "c")
 PTOL, PREL, VM_TOL, VA_TOL = 2e-6, 1e-6, 2e-6, 2e-4     # see ASSUMPTIONS
+MAX_IT = 60
 A120 = cmath.exp(2j * math.pi / 3)
 
 
@@ -119,6 +134,51 @@ def live_part(recipe):
     roots = {find(b) for b in seeds}
     live = {i for i in range(len(buses)) if find(i) in roots}
     return live, {node[b] for b in seeds}, {node[b] for b in live}
+
+
+def zero_seq_floating(recipe):
+    """True if an energized bus has no zero-sequence connection to earth: the three phase power flow is 'modelled with
+    earth return' (docstring), phase-earth quantities at such a bus are undefined (the zero-sequence matrix is singular up
+    to the 1e20 placeholder impedance). Earth references: ext_grid bus, every terminal of a YNyn transformer, LV terminal
+    of a Dyn/Yzn transformer, (capacitively) both ends of a line with c0 > 0; zero-sequence connections: lines, closed
+    bus-bus switches, YNyn transformers."""
+    live, _, _ = live_part(recipe)
+    opened = {(netgen.ET_TABLE[e["et"]], e["element"]) for e in recipe["el"]
+              if e["t"] == "switch" and e["et"] != "b" and not e.get("closed", True)}
+    par = list(range(len(recipe["buses"])))
+
+    def find(a):
+        while par[a] != a:
+            par[a] = par[par[a]]
+            a = par[a]
+        return a
+    earthed = set()
+    count = {}
+    for e in recipe["el"]:
+        t = e["t"]
+        if t in ("line", "trafo"):
+            k = count.get(t, 0)
+            count[t] = k + 1
+            if not e.get("in_service", True) or (t, k) in opened:
+                continue
+            a, b = (e["from_bus"], e["to_bus"]) if t == "line" else (e["hv_bus"], e["lv_bus"])
+            if a not in live or b not in live:
+                continue
+            if t == "line":
+                par[find(a)] = find(b)
+                if e.get("c0_nf_per_km", 0) > 0:
+                    earthed.update((a, b))
+            elif e.get("vector_group") == "YNyn":
+                par[find(a)] = find(b)
+                earthed.update((a, b))
+            else:
+                earthed.add(b)
+        elif t == "switch" and e["et"] == "b" and e.get("closed", True) and e["bus"] in live and e["element"] in live:
+            par[find(e["bus"])] = find(e["element"])
+        elif t == "ext_grid" and e.get("in_service", True) and e["bus"] in live:
+            earthed.add(e["bus"])
+    roots = {find(b) for b in earthed}
+    return any(find(b) not in roots for b in live)
 
 
 @st.composite
@@ -248,7 +308,7 @@ def _close(a, b, atol, rtol):
 def run_3ph(net, opt, sn):
     from pandapower.pf.runpp_3ph import runpp_3ph
     with silence():
-        runpp_3ph(net, tolerance_mva=pf_tol(sn), max_iteration=60, trafo_model="t", **opt)
+        runpp_3ph(net, tolerance_mva=pf_tol(sn), max_iteration=MAX_IT, trafo_model="t", **opt)
 
 
 def to_seq(x):
@@ -357,6 +417,9 @@ def check(case):
     sn = recipe.get("sn_mva", 1.0)
     balanced = is_balanced(recipe)
     res.label("balanced" if balanced else "unbalanced")
+    if zero_seq_floating(recipe):
+        res.skipped = "domain:zero-seq-floating-bus"
+        return res
     net, maps = netgen.build(recipe)
     try:
         run_3ph(net, opt, sn)
@@ -375,18 +438,33 @@ def check(case):
         res.skipped = "3ph:not-converged"
         return res
     eg_live = net.ext_grid.index[net.ext_grid.in_service & net.bus.in_service.reindex(net.ext_grid.bus).values]
-    if len(eg_live) and net.res_bus_3ph.vm_a_pu.loc[net.ext_grid.bus.loc[eg_live]].isna().all():
+    all_nan = bool(len(eg_live) and net.res_bus_3ph.vm_a_pu.loc[net.ext_grid.bus.loc[eg_live]].isna().all())
+    oos = set(net.bus.index[~net.bus.in_service])
+    ln = net.line[net.line.in_service]
+    at_oos = bool((ln.from_bus.isin(oos) ^ ln.to_bus.isin(oos)).any())
+    if at_oos:
+        res.label("line-at-oos-bus")
+    ppc1 = net.get("_ppc1")
+    inner_failed = isinstance(ppc1, dict) and ppc1.get("iterations") == MAX_IT
+    if all_nan and at_oos and opt["calculate_voltage_angles"]:
         # "converged" but not even the slack buses carry a voltage
-        oos = set(net.bus.index[~net.bus.in_service])
-        ln = net.line[net.line.in_service]
-        at_oos = bool((ln.from_bus.isin(oos) ^ ln.to_bus.isin(oos)).any())
-        cls = "line-at-oos-bus" if at_oos and opt["calculate_voltage_angles"] else "other"
-        res.label("line-at-oos-bus") if at_oos else None
-        res.fail("3ph/nan-results/" + cls, vm_a=[float(v) for v in net.res_bus_3ph.vm_a_pu.values][:6], opt=opt)
+        res.fail("3ph/nan-results/line-at-oos-bus", vm_a=[float(v) for v in net.res_bus_3ph.vm_a_pu.values][:6], opt=opt)
+        return res
+    if inner_failed:
+        # the last inner Newton-Raphson run used up its iterations, i.e. the sequence iteration diverged, but no
+        # LoadflowNotConverged was raised: the reported "solution" is NaN or arbitrary
+        res.label("diverged")
+        vm_eg = [[float(net.ext_grid.at[i, "vm_pu"]), float(net.res_bus_3ph.vm_a_pu.at[net.ext_grid.at[i, "bus"]])] for i in eg_live]
+        res.fail("3ph/diverged-reported-converged", ext_grid_setpoint_vs_vm_a=vm_eg[:3], all_nan=all_nan, opt=opt)
+        return res
+    if all_nan:
+        res.fail("3ph/nan-results/other", vm_a=[float(v) for v in net.res_bus_3ph.vm_a_pu.values][:6], opt=opt)
         return res
 
-    ptol = PTOL * max(1.0, sn)
-    prel = PREL
+    # the outer loop of runpp_3ph only tests the positive-sequence mismatch (fixed 3e-8 p.u.): the negative / zero sequence
+    # parts of an unbalanced case are left with a ~10x larger residual (it vanishes with a tighter outer tolerance)
+    ptol = PTOL * max(1.0, sn) * (1.0 if balanced else 10.0)
+    prel = PREL * (1.0 if balanced else 10.0)
     node = oracles.fused_nodes(net)
     groups = {}
     for b, n in node.items():
@@ -539,6 +617,16 @@ def check(case):
                     if not _close(pl, tot[k], ptol, prel):
                         res.fail("B/loss/%s" % tab, element=[tab, int(idx)], phase=x, reported=[pl.real, pl.imag],
                                  from_plus_to=[tot[k].real, tot[k].imag])
+
+    # a "solution" with a collapsed positive-sequence voltage that violates the balance is the end point of a diverged
+    # sequence iteration (the outer criterion compares |S| magnitudes only, both vanish with V1 -> 0): one root cause
+    v1_min = min([abs(to_seq(v)[1]) / (net.bus.at[b, "vn_kv"] / math.sqrt(3)) for b, v in V.items() if v is not None] + [1.0])
+    if v1_min < 0.5 and any(sg.startswith("B/balance") for sg, _ in res.failures):
+        res.label("diverged")
+        first = res.failures[0]
+        res.failures = []
+        res.fail("3ph/diverged-reported-converged", min_v1_pu=v1_min, first_failure=[first[0], first[1].get("mismatch_mva")], opt=opt)
+        return res
 
     # ---- C: reported branch flows follow the documented sequence models at the reported voltages
     sw_open = {(et, int(el)) for et, el, cl in zip(net.switch.et.values, net.switch.element.values, net.switch.closed.values)
